@@ -13,9 +13,11 @@ import (
 	appsv1 "k8s.io/api/apps/v1"
 	corev1 "k8s.io/api/core/v1"
 	policyv1 "k8s.io/api/policy/v1"
+	resourcev1 "k8s.io/api/resource/v1"
 	storagev1 "k8s.io/api/storage/v1"
 	"sigs.k8s.io/controller-runtime/pkg/client"
 
+	autoscalingv1beta1 "sigs.k8s.io/karpenter/pkg/apis/autoscaling/v1beta1"
 	v1 "sigs.k8s.io/karpenter/pkg/apis/v1"
 	"sigs.k8s.io/karpenter/pkg/controllers/state"
 )
@@ -82,7 +84,8 @@ func (w *world) apiObjects() map[string]string {
 	out := map[string]string{}
 	lists := []client.ObjectList{&corev1.NodeList{}, &v1.NodeClaimList{}, &v1.NodePoolList{}, &corev1.PodList{}, &corev1.PersistentVolumeClaimList{},
 		&corev1.PersistentVolumeList{}, &storagev1.StorageClassList{}, &storagev1.CSINodeList{}, &appsv1.DaemonSetList{}, &policyv1.PodDisruptionBudgetList{},
-		&storagev1.VolumeAttachmentList{}, &corev1.EventList{}}
+		&storagev1.VolumeAttachmentList{}, &corev1.EventList{}, &resourcev1.ResourceClaimList{}, &resourcev1.ResourceSliceList{},
+		&resourcev1.DeviceClassList{}, &autoscalingv1beta1.CapacityBufferList{}, &corev1.PodTemplateList{}}
 	old := w.faultVerb.Load().(string)
 	w.faultVerb.Store("")
 	defer w.faultVerb.Store(old)
@@ -143,6 +146,9 @@ func (w *world) snap() snapshot {
 	for _, p := range w.j.Pools {
 		s[clOther+"|NodePoolResourcesFor "+p.Name] = digestOf(w.cluster.NodePoolResourcesFor(p.Name))
 	}
+	// in-memory state of the provisioner's collaborators that simulations read: allocated devices, shared virtual pods
+	s[clOther+"|deviceallocation.Controller"] = digestOf(w.dac)
+	s[clOther+"|virtualpods.Cache"] = digestOf(w.vpc)
 	// provider catalogue: order and content, per slice the provider hands out
 	slices := map[string]interface{}{"InstanceTypes": w.cp.InstanceTypes}
 	for name, its := range w.cp.InstanceTypesForNodePool {
